@@ -135,11 +135,11 @@ OpsNow ==
                        [] nm = "burst" -> { ([n |-> 25] @@ BarOp(nm, b, dt)) }
                        [] nm = "fburst" -> { ([n |-> 80] @@ BarOp(nm, b, dt)) }                      \* eighty forced draws in a row
                        [] nm = "to_hidden_mp" -> IF Multi /\ ~S.bars[b].inmp THEN {} ELSE { BarOp(nm, b, dt) }
-                       [] nm \in {"inc", "set_position", "set_length", "inc_length", "dec_length"}
+                       [] nm \in {"inc", "set_position", "seek_to", "set_length", "inc_length", "dec_length"}
                             (* RESTRICTION: position updates are spaced >= 1 ms so the position  *)
                             (* bucket (C05) never withholds the draw request                     *)
                             (* set_position also to a value beyond the length of the generated bars (3) *)
-                            -> { ([n |-> k] @@ BarOp(nm, b, IF dt < 1000 THEN 1000 ELSE dt)) : k \in (IF nm = "set_position" THEN {1, 5} ELSE {1}) }
+                            -> { ([n |-> k] @@ BarOp(nm, b, IF dt < 1000 THEN 1000 ELSE dt)) : k \in (IF nm \in {"set_position", "seek_to"} THEN {1, 5} ELSE {1}) }
                        (* a wrapped iterator over two items, exhausted by a for loop or by internal iteration (count, for_each: Iterator::fold) *)
                        [] nm = "iter" -> { ([n |-> 2, how |-> hw] @@ BarOp(nm, b, dt)) : hw \in {"for", "count", "for_each"} }
                        [] nm \in {"set_message", "set_prefix", "finish_with_message", "abandon_with_message"}
